@@ -74,4 +74,7 @@ run C13 && mut C13 x/fixationstore/types/fixationstore.go '		if latestEntry.HasD
 run C02 && mut C02 x/pairing/keeper/filters/frozen_providers_filter.go 'return stakeEntry.StakeAppliedBlock > currentEpoch' 'return stakeEntry.StakeAppliedBlock > currentEpoch+1000'
 run C20 && mut C20 x/conflict/keeper/vote.go '	halfTotalVotes := totalVotes.Quo(sdk.NewIntFromUint64(MajorityDiv))' '	halfTotalVotes := totalVotes.Quo(sdk.NewIntFromUint64(MajorityDiv)).SubRaw(1)'
 run C19 && mut C19 x/pairing/keeper/unresponsive_provider.go '		if len(epochs) != 0 && existingProviders[chainID] > minProviders {' '		if len(epochs) != 0 && existingProviders[chainID] >= minProviders {'
+run C42 && mut C42 x/rewards/keeper/iprpc.go '		k.addSpecFunds(ctx, fund.Spec, fund.Fund, 1, false)' '		k.addSpecFunds(ctx, fund.Spec, fund.Fund, 1, true)'
+run C42 && mut C42 x/rewards/keeper/iprpc.go '	for i := startID; i < startID+duration; i++ {' '	for i := startID; i <= startID+duration; i++ {'
+run C42 && mut C42 x/rewards/keeper/providers.go '	if !k.IsIprpcSubscription(ctx, subscription) {' '	if false {'
 exit 0
